@@ -83,6 +83,7 @@ func c19Build(cfg c19Cfg) *restful.Container {
 		restful.SetCompressorProvider(c19Ledger)
 	}
 	ws := new(restful.WebService).Path("/api")
+	ws.SetDynamicRoutes(true) // the route list is then read through the locking, copying accessor
 	if cfg.Kind == "filters" {
 		ws.Filter(logging("s"))
 	}
@@ -118,6 +119,7 @@ func c19Build(cfg c19Cfg) *restful.Container {
 	// documents it; RouterJSR311 treats the text literally), a tail wildcard
 	ws.Route(ws.GET("/re/{n:[0-9]+}").To(echo("re")))
 	ws.Route(ws.GET("/verb/{id}:go").To(echo("verb")))
+	ws.Route(ws.GET("/verb/{id}:stop").To(echo("verb-stop")))
 	ws.Route(ws.GET("/files/{t:*}").To(echo("files")))
 	// an entity negotiated between two representations
 	ws.Route(ws.GET("/ent").Produces(restful.MIME_XML, restful.MIME_JSON).To(func(req *restful.Request, resp *restful.Response) {
@@ -192,6 +194,7 @@ func c19Q() []h.Req {
 		// a q value that does not parse: how it is treated is nobody's business here, but it must not
 		// depend on trace logging or on other requests
 		{Method: "GET", Segs: []string{"api", "ent"}, Hdr: [][2]string{{"X-Who", "rae"}, {"Accept", "application/xml;q=high, application/json;q=0"}}},
+		{Method: "GET", Segs: []string{"api", "verb", "7:stop"}, Hdr: [][2]string{{"X-Who", "sam"}}},
 	}
 }
 
@@ -480,7 +483,7 @@ func checkC19(run *h.Run) {
 	run.Cov["distinct_nontrivial"] = states
 	run.Cov["distinct_outcomes"] = outcomes.Len()
 	run.Cov["exhaustive"] = true
-	run.Cov["rule"] = fmt.Sprintf("E2: configurations {plain, 3 container + service + route filters, CORS with computed methods, OPTIONS filter, encoding with bounded(1) provider} x {CurlyRouter, RouterJSR311} x entry {Dispatch, ServeHTTP} x trace {off, on}: every sequence over the request set Q (%d requests: two GETs on one template, POST entity, 404, 405, CORS preflight, a handler that dispatches a nested request, a second template with other methods incl. its preflight and 405, a second service, a plain handler behind HandleWithFilter, an entity negotiated between XML and JSON under two Accept headers that differ only in letter case and once as XML, routes with a regular-expression variable, a custom verb and a tail wildcard, two requests whose route function panics (default recover handler), two requests to a service whose root path has a variable, an Accept header with an unparsable q value) of length %s on one container, plus the 1000-fold repetition of each request; the last response (status, all headers, decoded body with echoed parameters / attribute / selected route) must equal the response on a fresh container with trace off. E3 (instrumented): every pair (thorough: also triples) of Q concurrently, all schedules within the preemption bound, same oracle per request, happens-before race detection; then the free-running -race pass. Every history is non-trivial.", len(q), depth)
+	run.Cov["rule"] = fmt.Sprintf("E2: configurations {plain, 3 container + service + route filters, CORS with computed methods, OPTIONS filter, encoding with bounded(1) provider} x {CurlyRouter, RouterJSR311} x entry {Dispatch, ServeHTTP} x trace {off, on}: every sequence over the request set Q (%d requests: two GETs on one template, POST entity, 404, 405, CORS preflight, a handler that dispatches a nested request, a second template with other methods incl. its preflight and 405, a second service, a plain handler behind HandleWithFilter, an entity negotiated between XML and JSON under two Accept headers that differ only in letter case and once as XML, routes with a regular-expression variable, two custom verbs and a tail wildcard, two requests whose route function panics (default recover handler), two requests to a service whose root path has a variable, an Accept header with an unparsable q value) of length %s on one container, plus the 1000-fold repetition of each request; the last response (status, all headers, decoded body with echoed parameters / attribute / selected route) must equal the response on a fresh container with trace off. E3 (instrumented): every pair (thorough: also triples) of Q concurrently, all schedules within the preemption bound, same oracle per request, happens-before race detection; then the free-running -race pass. Every history is non-trivial.", len(q), depth)
 	run.Assume = []string{"every history starts from the same package-level state (restored between histories)", "differential: the fresh-container response is the reference; handlers also self-check that their own view does not change while they run"}
 	if f := e3Part["C19"]; f != nil {
 		f(run)
